@@ -96,3 +96,28 @@ fn wrap_scalars(c: &LruCache<u8, SV, BH>) -> usize { c.len() + c.current_size() 
 #[kani::proof_for_contract(wrap_scalars)]
 #[kani::unwind(6)]
 fn t_framec_scalars() { table_defaults(); let c = prebuilt(2, 4); let _ = wrap_scalars(&c); }
+
+// ---- frame contract for a promotion: `touch` may write ONLY the prev/next link fields of list nodes and of the
+//      seal -- not sizes, keys, values, counters or any table metadata (function contract with an explicit
+//      modifies set; CBMC checks every write instruction reachable from the call against it) -------------------
+fn link_fields(c: &LruCache<u8, SV, BH>, i: usize) -> *mut EntryPtr<u8, SV> {
+    // i = 0,1: seal.prev / seal.next; i = 2.. : prev / next of slot (i-2)/2
+    if i == 0 { return unsafe { &raw mut (*(c.seal.get() as *const Entry<u8, SV> as *mut Entry<u8, SV>)).prev }; }
+    if i == 1 { return unsafe { &raw mut (*(c.seal.get() as *const Entry<u8, SV> as *mut Entry<u8, SV>)).next }; }
+    let slot = (i - 2) / 2;
+    let (_, _, addr) = c.table.slot(slot);
+    let e = addr as *mut Entry<u8, SV>;
+    if (i - 2) % 2 == 0 { unsafe { &raw mut (*e).prev } } else { unsafe { &raw mut (*e).next } }
+}
+#[kani::modifies(link_fields(c, 0), link_fields(c, 1), link_fields(c, 2), link_fields(c, 3), link_fields(c, 4), link_fields(c, 5), link_fields(c, 6), link_fields(c, 7))]
+#[kani::ensures(|_r| true)]
+fn wrap_touch(c: &mut LruCache<u8, SV, BH>, k: u8) { c.touch(&k) }
+#[kani::proof_for_contract(wrap_touch)]
+#[kani::unwind(6)]
+fn t_framec_touch() {
+    table_defaults();
+    let mut c = prebuilt(3, 3);
+    let k: u8 = kani::any();
+    kani::assume(k < 4);
+    wrap_touch(&mut c, k);
+}
